@@ -351,6 +351,8 @@ def enrol_extra(prop, tier, seed):
                 for state in ("none", "s1"):
                     for params in ((False, True) if flow in ("wrapped", "rewrapped") else (False,)):
                         ops.append(dict(op="Enrol", flow=flow, backend=be, sw=sw, state=state, params=params, subst="none", rekey=False))
+                # the application passes its certificate-lifetime option to the enrolment calls as well
+                ops.append(dict(op="Enrol", flow=flow, backend=be, sw=sw, state="none", params=False, subst="none", rekey=False, lifeOpt=True))
                 # the same identity fetches a second time with a replaced encryption key (wrapper flows authorise from the request)
                 if flow in ("wrapped", "rewrapped"):
                     ops.append(dict(op="Enrol", flow=flow, backend=be, sw=sw, state="none", params=False, subst="none", rekey=True))
